@@ -2,7 +2,7 @@ SPECIFICATION Spec
 CONSTANTS
   N = 3
   Refs = {"a", "b"}
-  MaxDepth = 5
+  MaxDepth = 4
   MaxPacks = 2
   WithCopies = TRUE
   WithIdx = FALSE
@@ -19,4 +19,5 @@ INVARIANT Transparent
 INVARIANT Exact
 INVARIANT RefsTransparent
 INVARIANT StaleRejected
+VIEW view
 CHECK_DEADLOCK FALSE
